@@ -546,7 +546,43 @@ def anchored_key_collision(case, obs):
     return count_entries(l) + count_entries(r) < before
 
 
+def key_names(x, acc):
+    """anchor names carried by hash KEYS"""
+    if isinstance(x, dict):
+        for k, v in x.items():
+            a = anchor_of(k)
+            if a is not None:
+                acc.add(a)
+            key_names(v, acc)
+    elif isinstance(x, (list, tuple)):
+        for e in x:
+            key_names(e, acc)
+    return acc
+
+
+def container_names(x):
+    return {anchor_of(n) for n in walk_nodes(x, [])
+            if (isinstance(n, (dict, list, tuple)) or docenc.is_set(n)) and anchor_of(n) is not None}
+
+
+def anchored_key_meets_container(case, obs):
+    """F-C10-3: left / right replace an anchored hash KEY by the other document's node of that name; when
+    that node is a Hash / Array / Set, `data.insert(idx, repl_node, data.pop(key))` hashes it: TypeError.
+    right: the key is in the left document; left: in the right document."""
+    policy = str(eff_policy(case)).lower()
+    try:
+        l, r = load(case[0]), load(case[1])
+    except Exception:  # noqa
+        return False
+    if policy == "right":
+        return bool(key_names(l, set()) & container_names(r))
+    if policy == "left":
+        return bool(key_names(r, set()) & container_names(l))
+    return False
+
+
 FINDING_PREDS = {"aoh_default_governs_non_aoh": aoh_default,
+                 "anchored_key_meets_container": anchored_key_meets_container,
                  "anchored_key_collision": anchored_key_collision,
                  "anchored_container_as_array_element": anchored_container_as_array_element}
 
@@ -763,6 +799,13 @@ def corpus_chunks():
         ("{a: &x 1 , b: *x }", "{c: &x 1.0 , d: *x }", {"anchors": "stop"}, None),
         ("{a: &x 1 , b: [*x , [*x ]]}", "{c: &x 2 , d: [*x , [*x ]]}", {"anchors": "left"}, None),
         ("{&x k : 1 , b: *x }", "{&x j : 2 , d: *x }", {"anchors": "left"}, None),
+        # F-C10-3: an anchored key meets an anchored container of the same name (implementation-only stream)
+        ("{&x k : 1 }", "{a: &x [1, 2]}", {"anchors": "right"}, None),
+        ("{a: &x [1, 2]}", "{&x k : 1 }", {"anchors": "left"}, None),
+        ("{&x k : 1 }", "{a: &x {b: 2}}", {"anchors": "right"}, None),
+        ("{&x k : 1 }", "{a: &x [1, 2]}", {"anchors": "left"}, None),
+        ("{&x k : 1 }", "{a: &x [1, 2]}", {"anchors": "rename"}, None),
+        ("{&x k : 1 }", "{a: &x [1, 2]}", {"anchors": "stop"}, None),
     ]
 
 
